@@ -24,6 +24,7 @@ func runC04(w *World) *Result {
 	ProtoRule(w, r, "R-C04-proto", nil)
 	DispatchRule(w, r, "R-C04-dispatch")
 	c04Once(w, r)
+	StaleListRule(w, r, "R-C04-once")
 	r.Rule("R-C04-srcorder", "slots evaluated in a fixed order by the driver hold expressions parsed in that order", 12)
 	c04SrcOrder(w, r)
 	for _, role := range []string{"bash", "batch"} {
